@@ -14,8 +14,9 @@ PROP = "C15"
 LEVEL = "exploration"
 RULE = ("complete table: version strings {absent, 1, 2, 2.0, 2.1, 2.2, 2.3, 2.1.9, 2.2.0, 3, 3.0, 3.0.1, 3.10, 4, "
         "4.0, 10.2} x explicit api_version {absent, equal, different} x stub kind {in-process with v3 signatures, "
-        "in-process with v2 signatures, in-process mixed (init only / step only), remote raw-protocol stub over the "
-        "in-memory transport} x type given/absent; each admissible stub then runs in a small scenario (producer -> "
+        "in-process with v2 signatures, in-process mixed (init only / step only), an old-style subclass of a v3-style "
+        "class and an upgraded subclass of an old-style class (an instance of the parent class is started first), "
+        "remote raw-protocol stub over the in-memory transport} x type given/absent; each admissible stub then runs in a small scenario (producer -> "
         "stub), calls five extra methods (names incl. setup, done, set) and its literal requests are recorded. Oracle: step has 2 positional arguments iff version < 3, "
         "setup_done iff version >= 2.2, time_resolution to an in-process init iff its signatures accept it, missing "
         "type => time-based, ScenarioError at start iff version >= 4 / explicit mismatch / in-process v2 signatures "
@@ -27,7 +28,8 @@ ASSUMPTIONS = [
 ]
 VERSIONS = [None, "1", "2", "2.0", "2.1", "2.2", "2.3", "2.1.9", "2.2.0", "3", "3.0", "3.0.1", "3.10", "4", "4.0",
             "10.2"]
-KINDS = ["inproc_v3", "inproc_v2", "inproc_init_only", "inproc_step_only", "remote_raw"]
+KINDS = ["inproc_v3", "inproc_v2", "inproc_init_only", "inproc_step_only", "remote_raw", "inproc_v2_child_of_v3",
+         "inproc_v3_child_of_v2"]
 LOG = []
 
 
@@ -122,6 +124,22 @@ class StubStepOnly(_Base):          # step takes max_advance (optional), init ha
         return self._step((time, inputs) if max_advance == "MISSING" else (time, inputs, max_advance))
 
 
+class StubV2ChildOfV3(StubV3):      # a subclass of a v3-style simulator that overrides init/step in the old style
+    def init(self, sid, version=None, with_type=True):
+        return self._init(sid, "MISSING", version, with_type)
+
+    def step(self, time, inputs, *more):
+        return self._step((time, inputs) + tuple(more))
+
+
+class StubV3ChildOfV2(StubV2):      # an upgraded subclass of an old-style simulator
+    def init(self, sid, time_resolution="MISSING", version=None, with_type=True):
+        return self._init(sid, time_resolution, version, with_type)
+
+    def step(self, time, inputs, max_advance="MISSING"):
+        return self._step((time, inputs) if max_advance == "MISSING" else (time, inputs, max_advance))
+
+
 async def start_raw(mosaik_config, sim_name, sim_config, mosaik_remote):
     """raw protocol stub: answers on the wire, records the literal requests"""
     from mosaik.proxies import RemoteProxy
@@ -173,7 +191,10 @@ async def start_raw(mosaik_config, sim_name, sim_config, mosaik_remote):
 
 TASKS = []
 CLASSES = {"inproc_v3": "StubV3", "inproc_v2": "StubV2", "inproc_init_only": "StubInitOnly",
-           "inproc_step_only": "StubStepOnly"}
+           "inproc_step_only": "StubStepOnly", "inproc_v2_child_of_v3": "StubV2ChildOfV3",
+           "inproc_v3_child_of_v2": "StubV3ChildOfV2"}
+# for the *_child_of_* kinds an instance of the parent class is started first, in the same world
+PARENT = {"inproc_v2_child_of_v3": ("StubV3", "3.0"), "inproc_v3_child_of_v2": ("StubV2", "2.2")}
 
 
 def run_row(row, stub_version=None):
@@ -195,7 +216,10 @@ def run_row(row, stub_version=None):
         cfg["api_version"] = version if version is not None else "1"
     elif row["explicit"] == "different":
         cfg["api_version"] = "2.4" if vlist(version)[0] != 2 else "3.1"
-    w = simple_sim.quiet_world({"Stub": cfg, "Meta": {"python": "mvf.simple_sim:MetaSim"}})
+    sim_cfg = {"Stub": cfg, "Meta": {"python": "mvf.simple_sim:MetaSim"}}
+    if row["kind"] in PARENT:
+        sim_cfg["Parent"] = {"python": f"mvf.props.c15:{PARENT[row['kind']][0]}"}
+    w = simple_sim.quiet_world(sim_cfg)
     loop = w.loop
     out = {"outcome": None, "msg": "", "requests": []}
     import contextlib
@@ -203,6 +227,8 @@ def run_row(row, stub_version=None):
     try:
         try:
             with contextlib.redirect_stdout(io.StringIO()):
+                if row["kind"] in PARENT:
+                    w.start("Parent", sim_id="Q", version=PARENT[row["kind"]][1], with_type=True)
                 fac = w.start("Stub", sim_id="S", version=version, with_type=row["with_type"])
         except ScenarioError as e:
             out["outcome"], out["msg"] = "rejected", str(e)
@@ -241,7 +267,7 @@ def run_row(row, stub_version=None):
 
 def expected(row):
     v = vlist(row["version"])
-    forced_old = row["kind"] in ("inproc_v2", "inproc_init_only", "inproc_step_only")
+    forced_old = row["kind"] in ("inproc_v2", "inproc_init_only", "inproc_step_only", "inproc_v2_child_of_v3")
     reject = v >= [4] or row["explicit"] == "different" or (forced_old and v >= [3])
     if not reject and v >= [3] and not row["with_type"]:
         return {"reject": None}          # v3 without a type: not covered by the statement (recorded only)
